@@ -407,7 +407,7 @@ class Configurator(
         if authentication_policy:
             self.set_authentication_policy(authentication_policy)
 
-        if security_policy:
+        if security_policy is not None:
             self.set_security_policy(security_policy)
 
         if default_view_mapper is not None:
@@ -429,7 +429,7 @@ class Configurator(
         if response_factory:
             self.set_response_factory(response_factory)
 
-        if default_permission:
+        if default_permission is not None:
             self.set_default_permission(default_permission)
 
         if session_factory is not None:
